@@ -52,7 +52,7 @@ CHECKS = {
    note="Trusts the hook wrappers in harness/cache_common.py (substituted Path/open/os/pickle of hw_model inside the child), sha256 modelled as injective, setpriv for the read-only directory, projection of a report to a content id."),
  "C18": dict(
    category="model_checking",
-   text="TLC enumerates all 585 call histories of length <= 3 over 8 request kinds and checks that each report is a function of the request and shared state is unchanged (with the deviations model-reuse + in-place mutation it "
+   text="TLC enumerates all 585 call histories of length <= 3 over 8 analysis request kinds (and all histories <= 2 over 14 kinds incl. --db-check, --import, two --lines selections, two kernels on the multi-process search) and checks that each report is a function of the request and shared state is unchanged (with the deviations model-reuse + in-place mutation it "
         "produces the history <rmw, rmw>). Every history is replayed in one interpreter state (fork tree) through osaca.osaca.run and compared element-wise with fresh-process reports; seeded histories <= 12 are validated by Trace_Session, among them aged processes (step Work: more CPU and wall time than the search limit before the analyses; "
         "negative control MC_Session_procclock).",
    design_ref="5/C18, 10.3", technique="TLA+ session spec + TLC enumeration of all histories + fork-tree replay in one interpreter + batch trace validation",
@@ -103,7 +103,7 @@ CHECKS = {
    note="Trusts harness/port_common.py rendering and projection onto the 1/12000 lattice; Level B does not model PickAlternative (alternatives are covered at Level A only)."),
  "C02": dict(
    category="model_checking",
-   text="TLC enumerates the 5 355-kernel family with its Hall optimum and model-checks the balancer on it (OptNotWorse, NotBelowHall, Within15: largest gap 0.12 cy after two passes); all 5 355 kernels are replayed on the code and a sample through the real CLI with a synthetic model in a private HOME; "
+   text="TLC enumerates the 5 355-kernel family with its Hall optimum and model-checks the balancer on it (OptNotWorse, NotBelowHall, Within15: largest gap 0.12 cy after two passes); all 5 355 kernels are replayed on the code and a sample through the real CLI with a synthetic model in a private HOME, plus long kernels whose reported bottleneck is bounded by cycles/ports and by the uniform split; "
         "TLC decides the clauses on observed totals of random synthetic and shipped models.",
    design_ref="5/C02, 10.6", technique="TLA+ Hall-optimum spec + balancer state machine, TLC exhaustive on the stated family, full replay, batch trace validation",
    note="Trusts the Hall bound as the exact optimum of the fractional restricted-assignment problem (max-flow/min-cut) and the positional parser of the CLI totals row."),
@@ -123,7 +123,9 @@ CHECKS = {
  "C15": dict(
    category="model_checking",
    text="TLC checks WellFormed => CostDefined on a 2 735-shape entry lattice (every injected defect detected and named); well-formed shapes are costed by the real code; every shipped entry, table row and default (12 826, exported by an independent plain-YAML load) is validated by TLC "
-        "(well-formedness, cost = observed average_port_pressure, loaded entry lists = alias-expanded export, --db-check counts = counts TLC computes); the analysis path is run on every loaded entry in thorough.",
+        "(well-formedness, cost = observed average_port_pressure, loaded entry lists = alias-expanded export, --db-check counts = counts TLC computes); the analysis path is run on every loaded entry in thorough. "
+        "Whole-pipeline runs: the own rendering and the memory variants (composition path) of every entry that lacks data and one entry per shape of the others go through the real CLI entry point (default and --fixed) - no exception is an allowed outcome; "
+        "--db-check is also run after an import and an analysis in the same process.",
    design_ref="5/C15, 10.6", technique="TLA+ entry well-formedness / cost definitions evaluated by TLC over all exported entries + costing by the real code",
    note="TLC acts as evaluator of a data property (DESIGN section 8); the syntactic entry encoder in port_common.py is trusted; bdw/csx/skx are skipped as the property says."),
 
